@@ -68,7 +68,7 @@ pub fn identifier_from_parts(index: usize, generation: u64) -> entity::Identifie
 #[cfg(feature = "rayon")]
 pub mod rayon_shim {
     use core::sync::atomic::{
-        AtomicUsize,
+        AtomicPtr,
         Ordering,
     };
 
@@ -76,11 +76,14 @@ pub mod rayon_shim {
     /// before returning.
     pub type JoinHook = fn(&mut (dyn FnMut() + Send), &mut (dyn FnMut() + Send));
 
-    static HOOK: AtomicUsize = AtomicUsize::new(0);
+    static HOOK: AtomicPtr<()> = AtomicPtr::new(core::ptr::null_mut());
 
     /// Installs (or, with `None`, removes) the process-wide join hook.
     pub fn set_join_hook(hook: Option<JoinHook>) {
-        HOOK.store(hook.map_or(0, |hook| hook as usize), Ordering::SeqCst);
+        HOOK.store(
+            hook.map_or(core::ptr::null_mut(), |hook| hook as *mut ()),
+            Ordering::SeqCst,
+        );
     }
 
     /// `rayon::join`, routed through the installed hook if there is one.
@@ -92,11 +95,11 @@ pub mod rayon_shim {
         RB: Send,
     {
         let raw = HOOK.load(Ordering::SeqCst);
-        if raw == 0 {
+        if raw.is_null() {
             return ::rayon::join(oper_a, oper_b);
         }
         // SAFETY: `raw` was stored from a valid `JoinHook` function pointer.
-        let hook: JoinHook = unsafe { core::mem::transmute::<usize, JoinHook>(raw) };
+        let hook: JoinHook = unsafe { core::mem::transmute::<*mut (), JoinHook>(raw) };
 
         let mut oper_a = Some(oper_a);
         let mut oper_b = Some(oper_b);
